@@ -21,7 +21,7 @@ SPEC = {
     "rule": "exhaustive: every well-formed 2-map with n<=N darts (every partial injection b1, every fixed-point-free partial "
             "involution b2, every admissible removed set) x every editing call x every in-use argument tuple, with two value "
             "patterns; random: histories of <=40 calls with valid arguments on random WF maps; malformed: null/removed/out-of-range "
-            "arguments (correspondence only). distinct_nontrivial = distinct implementation output transcripts.",
+            "arguments (outside the guard of the property: advisory correspondence, a disagreement there is recorded, not an alarm). distinct_nontrivial = distinct implementation output transcripts.",
     "not_proved": [],
 }
 
@@ -154,7 +154,7 @@ def run(tier, seed):
         parts.append(("exhaustive n<=3 (+4% sample of n=4)", r1))
         parts.append(("random histories", hv.campaign(random_histories(1500, rng), oracle_wf)))
         parts.append(("transaction blocks", hv.campaign(tx_blocks(6000, rng), oracle_wf)))
-        parts.append(("malformed", hv.campaign(malformed(1500, rng), None)))
+        parts.append(("malformed", hv.campaign(malformed(1500, rng), None, advisory=True)))
     else:
         ex = exhaustive(4, rng)
         r1 = hv.campaign(ex, oracle_wf)
@@ -163,7 +163,7 @@ def run(tier, seed):
         parts.append(("exhaustive n=5 (2% sample)", hv.campaign(exhaustive_only(5, rng, 0.02), oracle_wf)))
         parts.append(("random histories", hv.campaign(random_histories(20000, rng, maxlen=60), oracle_wf)))
         parts.append(("transaction blocks", hv.campaign(tx_blocks(80000, rng), oracle_wf)))
-        parts.append(("malformed", hv.campaign(malformed(20000, rng), None)))
+        parts.append(("malformed", hv.campaign(malformed(20000, rng), None, advisory=True)))
     return hv.merge_results(parts)
 
 
